@@ -190,6 +190,31 @@ class Scenario:
     def teardown(self):
         pass
 
+    # a second live structure of the subject's class with slightly different parameters (worlds built on
+    # structs.Subject): steps flagged "nb" hand their add / push to it as well.  Nothing is asserted about the
+    # neighbour; what is asserted about the subject must hold whatever the neighbour does.
+    def neighbour_step(self, st):
+        if not st.get("nb"):
+            return
+        nb = getattr(getattr(self, "sub", None), "nb", None)
+        if nb is None:
+            return
+        m = st.get("m") if isinstance(st.get("m"), dict) else st
+        if m.get("op") not in ("add", "push"):
+            return
+        if nb.obj is None:
+            nb.build()
+        nb.apply_op(dict(m))
+        self.ctx.fault("neighbour_op")
+
+    def close_neighbour(self):
+        nb = getattr(getattr(self, "sub", None), "nb", None)
+        if nb is not None:
+            try:
+                nb.close()
+            except Exception:
+                pass
+
     # shrinking aids (optional)
     def simplify_step(self, step):
         """yield simpler variants of a step"""
@@ -235,14 +260,31 @@ def execute(scn_cls, seed=None, config=None, steps=None, keep_events=False, scra
     replay = steps is not None
     rng = None if replay else Rng(seed)
     cwd0 = os.getcwd()
+    wctx = None
     try:
         try:
             if not replay:
                 config = scn.gen_config(rng)
+                if isinstance(config.get("steps"), int) and rng.chance(1, 64):
+                    # a long history on one object: six times the drawn number of steps
+                    config["steps"] *= 6
+                    config["marathon"] = True
+                # interpreter configuration: warnings of the categories a library issues on its own behalf are errors
+                # (python -W error::RuntimeWarning -W error::UserWarning).  The library issues none, so on code that
+                # does not warn the run is unaffected; a warning raised in the middle of an update tears it.
+                config["warn_error"] = rng.chance(1, 8)
             # round-trip through JSON so generated and replayed runs see identical values
             config = json.loads(canon(config))
             res.config = config
             ctx.event({"seed": seed if not replay else None, "config": config} if not replay else {"config": config})
+            if config.get("warn_error"):
+                import warnings
+
+                wctx = warnings.catch_warnings()
+                wctx.__enter__()
+                warnings.simplefilter("error", RuntimeWarning)
+                warnings.simplefilter("error", UserWarning)
+                ctx.fault("warnings_are_errors")
             scn.setup(config)
             if replay:
                 for st in steps:
@@ -250,8 +292,10 @@ def execute(scn_cls, seed=None, config=None, steps=None, keep_events=False, scra
                     res.steps.append(st)
                     out = scn.apply(st)
                     ctx.event({"step": st, "out": out})
+                    if out != "skip":
+                        scn.neighbour_step(st)
             else:
-                limit = n_steps if n_steps is not None else scn.max_steps
+                limit = n_steps if n_steps is not None else scn.max_steps * (6 if config.get("marathon") else 1)
                 for _ in range(limit):
                     st = scn.gen_step(rng)
                     if st is None:
@@ -259,10 +303,14 @@ def execute(scn_cls, seed=None, config=None, steps=None, keep_events=False, scra
                     if "alt" not in st:
                         # which public spelling of the call to use: op(key, ...) or op_alt(hashes(key), ...)
                         st["alt"] = rng.chance(1, 4)
+                    if "nb" not in st:
+                        st["nb"] = rng.chance(1, 3)
                     st = json.loads(canon(st))
                     res.steps.append(st)
                     out = scn.apply(st)
                     ctx.event({"step": st, "out": out})
+                    if out != "skip":
+                        scn.neighbour_step(st)
             scn.finish()
         except Violation as v:
             res.violation = {"property": scn.prop, "kind": v.kind, "detail": v.detail,
@@ -286,6 +334,9 @@ def execute(scn_cls, seed=None, config=None, steps=None, keep_events=False, scra
             ctx.event({"violation": "unexpected_exception"})
     finally:
         try:
+            if wctx is not None:
+                wctx.__exit__(None, None, None)
+            scn.close_neighbour()
             scn.teardown()
         finally:
             os.chdir(cwd0)
